@@ -382,6 +382,7 @@ def run(ctx) -> list[Inst]:
     insts += _id_keys(ctx)
     insts += _extensions(ctx)
     insts += _file_layer(ctx)
+    insts += _stale_locals(ctx)
     insts += _templates(ctx)
     return insts
 
@@ -608,6 +609,135 @@ def _extensions(ctx) -> list[Inst]:
                               msg='' if ok else f'.{ext} dispatches to {sorted(calls)}',
                               file=lf.module.relpath, line=lf.node.lineno, props=props))
     return insts
+
+
+# ------------------------------------------------------------------------------------------------
+STALE_READERS = [('AttackGraph._from_dict', ('C10', 'C09')), ('Model._from_dict', ('C07',)),
+                 ('load_model_from_scad_archive', ('C18',)), ('get_model', ('C19',))]
+
+
+def _stale_locals(ctx) -> list[Inst]:
+    """(ix) in a reader, what goes into the object built for one record is computed from THAT record: a local that
+    is (re)bound inside the per-record loop and flows into a constructor / adder argument must be bound in the
+    same iteration on every path to that use.  A path from the loop header to the use that passes no binding
+    hands the record the value left over from the previous record (or from before the loop)."""
+    prog = ctx.prog
+    insts = []
+    for fname, props in STALE_READERS:
+        if not prog.has_func(fname):
+            continue
+        f = prog.func(fname)
+        cfg = ctx.cfg(f)
+        rel = f.module.relpath
+        checked = 0
+        for h in [n for n in cfg.nodes if n.kind == 'for']:
+            inside = [n for n in cfg.nodes if _in_loop(n, h)]
+            defs_in = {}
+            for n in inside:
+                if n.kind == 'stmt' and isinstance(n.ast, (ast.Assign, ast.AnnAssign)) and \
+                        getattr(n.ast, 'value', None) is not None:
+                    tg = n.ast.targets if isinstance(n.ast, ast.Assign) else [n.ast.target]
+                    for t in tg:
+                        if isinstance(t, ast.Name):
+                            defs_in.setdefault(t.id, []).append(n)
+            loop_targets = set()
+            cfg._targets(h.ast.target, loop_targets := [])
+            for v, dnodes in sorted(defs_in.items()):
+                if v in loop_targets:
+                    continue
+                # uses of v as (part of) an argument of a constructor / add_* call inside the loop
+                for n in inside:
+                    if n.loop is not h and not _in_loop(n, h):
+                        continue
+                    uses = []
+                    for r in _stmt_roots(n):
+                        for c in ast.walk(r):
+                            if isinstance(c, ast.Call):
+                                nm = c.func.attr if isinstance(c.func, ast.Attribute) else (
+                                    c.func.id if isinstance(c.func, ast.Name) else '')
+                                if nm[:1].isupper() or nm.startswith('add_'):
+                                    for a in list(c.args) + [k.value for k in c.keywords]:
+                                        if any(isinstance(x, ast.Name) and x.id == v for x in ast.walk(a)):
+                                            uses.append(c)
+                    if not uses:
+                        continue
+                    checked += 1
+                    construct = f"(ix) '{v}' handed to {stmt_text(uses[0].func)}(...) is bound in the same iteration"
+                    dset = {d.idx for d in dnodes}
+                    bad = _path_without(cfg, h, n, dset, v, strict=True)
+                    # only the hoisted-initialisation shape is decided: `v = <init>` before the loop reaches the use
+                    # (without it an unbound path is a NameError the tests would show, or the paths are correlated
+                    # through another variable - not decidable path-insensitively)
+                    outer = [d for d in cfg.reaching(n, v) if d.kind == 'stmt' and not _in_loop(d, h)]
+                    if bad is not None and not outer:
+                        insts.append(Inst(RULE, fname, construct, 'ok',
+                                          msg='bound on correlated paths only (no initialisation outside the loop)',
+                                          file=rel, line=n.lineno, props=props, nontrivial=False))
+                        continue
+                    if bad is None:
+                        insts.append(Inst(RULE, fname, construct, 'ok', file=rel, line=n.lineno, props=props))
+                    elif _path_without(cfg, h, n, dset, v, strict=False) is not None:
+                        insts.append(Inst(
+                            RULE, fname, construct, 'violation',
+                            msg=(f"an iteration of 'for {stmt_text(h.ast.target)} in {stmt_text(h.ast.iter, 50)}' can "
+                                 f"reach '{stmt_text(uses[0], 60)}' without binding '{v}' (bound at line "
+                                 f"{dnodes[0].lineno} only on some paths): the record then gets the value computed "
+                                 f"for the PREVIOUS record"),
+                            file=rel, line=n.lineno, props=props))
+                    else:
+                        insts.append(Inst(RULE, fname, construct, 'unproven',
+                                          msg=f"'{v}' is carried across iterations under a test of '{v}' itself",
+                                          file=rel, line=n.lineno, props=props))
+        if not checked:
+            insts.append(Inst(RULE, fname, '(ix) per-record locals', 'info', msg='no per-record local feeds a constructor',
+                              file=rel, line=f.node.lineno, props=props, nontrivial=False))
+    return insts
+
+
+def _in_loop(n, h):
+    l = n.loop
+    while l is not None:
+        if l is h:
+            return True
+        l = l.loop
+    return False
+
+
+def _stmt_roots(n):
+    a = n.ast
+    if n.kind in ('if', 'while'):
+        return [a.test]
+    if n.kind == 'for':
+        return [a.iter]
+    if n.kind in ('entry', 'exit', 'raise', 'try', 'handler', 'case', 'match', 'with'):
+        return []
+    if isinstance(a, (ast.FunctionDef, ast.ClassDef)):
+        return []
+    return [a]
+
+
+def _path_without(cfg, h, use, dset, v, strict):
+    """a node sequence header -T-> ... -> use that avoids every binding of v (and, when not strict ... see caller:
+    strict=True ignores validating tests; strict=False also refuses to pass an `if` whose FIRST operand tests v)."""
+    seen = set()
+    st = [t for t, l in h.succ if l == 'T']
+    while st:
+        x = st.pop()
+        if x is use:
+            return x
+        if x.idx in seen or x.idx in dset or x is h or not _in_loop(x, h):
+            continue
+        seen.add(x.idx)
+        if not strict and x.kind == 'if':
+            t = x.ast.test
+            first = t.values[0] if isinstance(t, ast.BoolOp) else t
+            if any(isinstance(y, ast.Name) and y.id == v for y in ast.walk(first)):
+                continue
+        for t, _ in x.succ:
+            if t is cfg.raise_exit or t is cfg.exit:
+                continue
+            st.append(t)
+    return None
 
 
 # ------------------------------------------------------------------------------------------------
